@@ -144,9 +144,11 @@ def gen(rng, tier):
             t2[victim] = list(reversed(t2[victim]))
         elif how == 1:
             t2[victim] = t2[victim] + [("extra_", rng.choice(["uint8", "string", "bool"]))]
-        else:
+        elif t2[victim]:
             nm, ty = t2[victim][0]
             t2[victim][0] = (nm, "bytes32" if not ty.startswith("bytes32") else "uint256")
+        else:
+            t2[victim] = [("only_", "uint8")]
         a, b = doc_of(types, prim), doc_of(t2, prim)
         cases.append(Case(seq_line(["td.hash " + hx(a), "td.hash " + hx(b), "td.hash " + hx(a)]), tags=("sequence", "dependency-redefined")))
         tj1, tj2 = json.dumps(tdgen.types_json(types, [("name", "string")])), json.dumps(tdgen.types_json(t2, [("name", "string")]))
